@@ -12,8 +12,8 @@ STANDIN = {
     "C05": "same scope; reference optimum by exact enumeration of basic LP solutions AND scipy linprog for every grid value; parity on a grid value, maximality 1e-7, best-constant clause; 10230 cases quick",
     "C06": "every (group,label,stratum) structure n<=5 (6), 2-3 groups, 0-1 control feature, five moments x bound configurations, hard predictions exhaustive + soft; BoundedGroupLoss, ErrorRate, MetricFrame agreement; 11022 cases quick",
     "C07": "gradient identity on unit and seeded multipliers/predictors, loss moments, project_lambda (non-negative, never lowers the Lagrangian), recording learner for _call_oracle / GridSearch; 11562 cases quick",
-    "C08": "PENDING_C08",
-    "C09": "PENDING_C09",
+    "C08": "real ExponentiatedGradient.fit with an exact learner over all 2^k functions (k<=3 quick, 5 thorough): all 1200 moment x bound x eps x max_iter x LP-step x eta0 combinations on seeded datasets, nu in {None,.2,.02,1e-4,0}; gap/error/violation clauses against enumeration + LP; 1828 cases quick",
+    "C09": "real GridSearch.fit/predict with exact learners (parity moments, BoundedGroupLoss), grid_size 2..14 (60): count/sign/L1/distinct, best response by enumeration, recorded values, first argmin, delegation spies; 5619 cases quick",
     "C10": "240 thresholder models x 200 seeds (valid pmf, (score,group) only, monotone without flip, reproducible, deterministic at 0/1, exact-binomial frequency band), 40 classification + 72 regression EG fits x 250 seeds incl. runs without the LP step; 352 models quick",
     "C11": "weight-k vs k-copies, scaling {0.5,3,1e-3}, ones vs omitted: base metrics all n<=3 (4) x {1,2,3}^n; MetricFrame per group and named metrics incl. single weighted rows; 4988 cases quick",
     "C12": "plain lists vs every accepted container per argument with permuted/offset/duplicated/string index labels for MetricFrame, named metrics, 7 moments, EG, GridSearch, ThresholdOptimizer; row permutations; label bijections; 1392 cases quick",
@@ -32,6 +32,14 @@ def main():
     s = open(os.path.join(ROOT, "DESIGN_section12.md")).read()
     for k, v in STANDIN.items():
         s = s.replace(f"STANDIN_{k}", v)
+        try:
+            ev = json.load(open(os.path.join(ROOT, "evidence", f"{k}.json")))
+            by = ev["coverage"]["obligations_by_label"]
+            ded = {lab: d for lab, d in by.items() if lab in ("P", "S")}
+            n, dis = sum(d["obligations"] for d in ded.values()), sum(d["discharged"] for d in ded.values())
+            s = s.replace(f"OBL_{k}", f"{dis}/{n}" if dis != n else f"{n}")
+        except Exception:
+            s = s.replace(f"OBL_{k}", "?")
     seeded = os.path.join(ROOT, "seeded", "TABLE.md")
     s = s.replace("SEEDED_TABLE", open(seeded).read() if os.path.exists(seeded) else "(filled in by tools/design_fill.py from seeded/TABLE.md)")
     d = open(os.path.join(ROOT, "DESIGN.md")).read()
